@@ -168,6 +168,9 @@ pub fn run_scenario(rep: &mut Report, p: &Params, sc: &Scenario, tag: &str) -> u
             let _ = inst.reset();
             rm.reset();
         }
+        if i > 0 && sc.in_stretch[i] && !sc.in_stretch[i - 1] && i % 2 == 0 {
+            inst.perturb(i / 2); // clone- or serde-swap right where a flat stretch begins
+        }
         let r = rm.push(x);
         let out = match inst.feed(x) {
             Ok(o) => o,
